@@ -151,3 +151,76 @@ def nul_rule(rep, u):
         (rep.proved if ok else rep.violated)("R-NUL", fn, "nul-refused", desc, "" if ok else
                                              "no NUL test: \"1.2.3.4\\0junk\" (12 bytes) parses as 1.2.3.4", c.get("ln"))
     return n
+
+
+def port_capacity_rule(rep, u, fname="sa_addr_port_to_str"):
+    """the capacity demanded for ":port" is what this port needs (1 + digits + 1), not the worst case of five digits:
+    "127.0.0.1:80" fits a 13-byte buffer"""
+    fn = u.fn(fname)
+    if fn is None or not fn.has_cfg:
+        raise driver.AnalysisBroken("anchor %s vanished" % fname)
+    rep.functions.add(fname)
+    n = 0
+    for bid in fn.reachable_blocks():
+        cnd = fn.blocks[bid].cond
+        if cnd is None:
+            continue
+        for y, _ in _walk(cnd):
+            if y.get("k") == "bin" and y["op"] in ("<", ">", "<=", ">="):
+                sides = (core.strip_casts(y["x"]), core.strip_casts(y["y"]))
+                if not any(core.is_ref(s_, name="buf_size") for s_ in sides):
+                    continue
+                other = sides[1] if core.is_ref(sides[0], name="buf_size") else sides[0]
+                consts = [const_val(z) for z, _ in walk(other) if const_val(z) is not None and z.get("k") == "int"]
+                locs = {z["n"] for z, _ in walk(other) if z.get("k") == "ref"}
+                if not consts or not any(c_ >= 3 for c_ in consts) and len(locs) < 2:
+                    continue
+                n += 1
+                worst = any(c_ >= 6 for c_ in consts) and len(locs) <= 1
+                desc = "%s: the space test for the port suffix depends on the port's digit count" % fname
+                (rep.violated if worst else rep.proved)("R-EXACT", fn, "port-capacity", desc, "compares with %s: any port below 10000 is refused for buffers the text fits in "
+                                                        "(127.0.0.1:80 into 13..15 bytes is ENOSPC)" % key(other)[:50] if worst else key(other)[:60], y.get("ln"))
+    return n
+
+
+def network_family_rule(rep, un, fname="str_net_to_ss"):
+    """"address/prefix" names a network only for AF_INET / AF_INET6: the family switch refuses everything else (the address
+    parser also accepts UNIX paths: "./24", ".0.0.0/8")"""
+    fn = un.fn(fname)
+    if fn is None or not fn.has_cfg:
+        raise driver.AnalysisBroken("anchor %s vanished" % fname)
+    rep.functions.add(fname)
+    n = 0
+    for bid in fn.reachable_blocks():
+        b = fn.blocks[bid]
+        if not (b.term and b.term["k"] == "SwitchStmt" and b.cond is not None and "ss_family" in key(b.cond)):
+            continue
+        n += 1
+        dflt = [s_ for s_ in b.rsucc() if "case" not in (fn.blocks[s_].label or {})]
+        ok = False
+        for s_ in dflt:
+            blk = fn.blocks[s_]
+            # the no-label successor is a default arm that returns an error (not the statement after the switch)
+            if (blk.label or {}).get("default") or (blk.label is not None and "case" not in blk.label and blk.label):
+                ok = any(e.get("k") == "ret" and const_val(e.get("e")) not in (None, 0) for e in blk.elems)
+        desc = "%s: a family other than AF_INET / AF_INET6 is refused" % fname
+        msg = "" if ok else "no failing default arm: '.0.0.0/8' and './24' return 0 with an AF_UNIX address and the prefix length"
+        (rep.proved if ok else rep.violated)("R-CFGX", fn, "network-family-default", desc, msg, b.elems[-1].get("ln") if b.elems else None)
+    return n
+
+
+def socklen_rule(rep, u):
+    """inet_ntop() takes a socklen_t (32 bit): a size_t capacity is clamped before it is narrowed (0x100000008 would be 8)"""
+    n = 0
+    for fn in u.function_list:
+        if fn.relfile() != SA or not fn.has_cfg:
+            continue
+        for pos, root, c, ps in fn.calls({"inet_ntop"}):
+            n += 1
+            rep.functions.add(fn.name)
+            a = c["args"][3]
+            clamped = any(const_val(z) is not None and 16 <= const_val(z) <= 256 and z.get("k") in ("int", "sizeof") for z, _ in _walk(a))
+            desc = "%s: the capacity handed to inet_ntop is clamped before the conversion to socklen_t" % fn.name
+            (rep.proved if clamped else rep.violated)("R-NARROW", fn, "socklen-clamped", desc, key(a)[:60] if clamped else
+                                                      "the size_t capacity is passed as it is: buf_size = 0x100000008 is seen as 8 (ENOSPC for a 4 GiB buffer)", c.get("ln"))
+    return n
